@@ -429,7 +429,8 @@ where
             cmp::Ordering::Equal => {}
             other => return other,
         }
-        match self.target.name_cmp(&other.target) {
+        // The target is not converted to lower case in the canonical form.
+        match self.target.composed_cmp(&other.target) {
             cmp::Ordering::Equal => {}
             other => return other,
         }
